@@ -147,6 +147,7 @@ Qed.
 Section Proofs.
 Variables ty raw V : Type.
 Variable conv : ty -> raw -> option V.
+Variable kwonly : pstr -> pstr -> bool.
 
 Notation cls := (cls ty V).
 Notation fdecl := (fdecl ty V cls).
@@ -245,9 +246,9 @@ Qed.
 
 Lemma kind_spec e cn nm (k : kind ty cls) v :
   (forall c', kchild k = Some c' ->
-              forall d, uniq c' d -> forall n, erase_res (fst (load conv e c' d n)) = spec conv e c' d) ->
+              forall d, uniq c' d -> forall n, erase_res (fst (load conv kwonly e c' d n)) = spec conv e c' d) ->
   uniq_kind k v ->
-  forall n, erase_res (fst (kind_parser conv (load conv e) cn nm k v n))
+  forall n, erase_res (fst (kind_parser conv (load conv kwonly e) cn nm k v n))
             = spec_kind conv (spec conv e) cn nm k v.
 Proof.
   intros IH Hu n. destruct k as [t|c|c]; cbn [kind_parser spec_kind].
@@ -255,12 +256,12 @@ Proof.
   - inversion Hu; subst. now apply IH.
   - unfold list_parser, spec_list. inversion Hu; subst; try reflexivity.
     match goal with H : forall v, In v _ -> uniq c v |- _ => rename H into Hl end.
-    pose proof (@list_run_spec (load conv e c) (spec conv e c) l
+    pose proof (@list_run_spec (load conv kwonly e c) (spec conv e c) l
                   (fun v Hv => IH c eq_refl v (Hl v Hv)) n) as L.
     destruct (collect (map (fun x => (tt, spec conv e c x)) l)) as [vals|er].
-    + destruct L as (vs & E1 & E2). destruct (list_run (load conv e c) l n) as [rr n2].
+    + destruct L as (vs & E1 & E2). destruct (list_run (load conv kwonly e c) l n) as [rr n2].
       cbn [fst] in E1. subst rr. cbn [fst erase_res erase]. now rewrite E2.
-    + destruct (list_run (load conv e c) l n) as [rr n2]. cbn [fst] in L. now subst rr.
+    + destruct (list_run (load conv kwonly e c) l n) as [rr n2]. cbn [fst] in L. now subst rr.
 Qed.
 
 (* ---- the dataclass __init__ ------------------------------------------------- *)
@@ -425,14 +426,15 @@ Lemma v1_loop_spec e cn (fs : list fdecl) ps m :
   forall suf pre, fs = pre ++ suf ->
   (forall f v, In f suf -> finit f = true -> assoc (fname f) m = Some v ->
      exists p : parser, assoc (fname f) ps = Some p /\
+               (forall x, spec_kind conv (spec conv e) cn (fname f) (fkind f) v <> Err (EBareType x)) /\
                forall n, erase_res (fst (p v n)) = spec_kind conv (spec conv e) cn (fname f) (fkind f) v) ->
   forall acc n,
   (forall k, In k (keys acc) -> In k (map fname pre)) ->
   match collect (visit V1 (sparsers_of conv (spec conv e) cn suf) m) with
-  | Err er => fst (v1_loop ps suf m (filter (fun kv => rq fs (fst kv)) acc)
+  | Err er => fst (v1_loop cn ps suf m (filter (fun kv => rq fs (fst kv)) acc)
                                   (filter (fun kv => negb (rq fs (fst kv))) acc) n) = Err er
   | Ok vals => exists acc',
-      fst (v1_loop ps suf m (filter (fun kv => rq fs (fst kv)) acc)
+      fst (v1_loop cn ps suf m (filter (fun kv => rq fs (fst kv)) acc)
                             (filter (fun kv => negb (rq fs (fst kv))) acc) n)
       = Ok (filter (fun kv => rq fs (fst kv)) (acc ++ acc'),
             filter (fun kv => negb (rq fs (fst kv))) (acc ++ acc'))
@@ -445,6 +447,7 @@ Proof.
     assert (Hfs' : fs = (pre ++ [FD nm d ini k0]) ++ suf) by (now rewrite <- app_assoc).
     assert (Hp' : forall f v, In f suf -> finit f = true -> assoc (fname f) m = Some v ->
        exists p : parser, assoc (fname f) ps = Some p /\
+         (forall x, spec_kind conv (spec conv e) cn (fname f) (fkind f) v <> Err (EBareType x)) /\
          forall n, erase_res (fst (p v n)) = spec_kind conv (spec conv e) cn (fname f) (fkind f) v)
       by (intros; apply Hp; auto; now right).
     assert (Hacc0 : forall k, In k (keys acc) -> In k (map fname (pre ++ [FD nm d ini k0]))).
@@ -452,10 +455,11 @@ Proof.
     destruct ini.
     + cbn [visit flat_map fst snd]. fold (visit V1 (sparsers_of conv (spec conv e) cn suf) m).
       destruct (assoc nm m) as [v|] eqn:Em.
-      * destruct (Hp (FD nm d true k0) v (or_introl eq_refl) eq_refl Em) as (p & Ep & Hpv).
-        cbn [fname fkind] in Ep, Hpv. rewrite Ep. cbn [app collect].
-        specialize (Hpv n). destruct (p v n) as [rx n1]. cbn [fst] in Hpv. rewrite <- Hpv.
-        destruct rx as [x|ex]; cbn [erase_res fst]; [|reflexivity].
+      * destruct (Hp (FD nm d true k0) v (or_introl eq_refl) eq_refl Em) as (p & Ep & Hnb & Hpv).
+        cbn [fname fkind] in Ep, Hpv, Hnb. rewrite Ep. cbn [app collect].
+        specialize (Hpv n). destruct (p v n) as [rx n1]. cbn [fst] in Hpv. rewrite <- Hpv in *.
+        destruct rx as [x|ex]; cbn [erase_res fst].
+        2:{ cbn [erase_res] in Hnb. destruct ex; try reflexivity. exfalso. now apply (Hnb cn0). }
         assert (Hin : In (FD nm d true k0) fs) by (rewrite Hfs; apply in_or_app; right; now left).
         pose proof (@rq_field fs (FD nm d true k0) Hn Hin) as Hrq. cbn [fname fdef] in Hrq.
         assert (Hfresh : ~ In nm (keys acc)).
@@ -495,10 +499,10 @@ Proof.
 Qed.
 
 Lemma load_unfold e cn (fs : list fdecl) :
-  load conv e (Cls cn fs) =
+  load conv kwonly e (Cls cn fs) =
   match e with
-  | V0 => v0_body cn fs (parsers_of conv (load conv e) cn fs)
-  | V1 => v1_body cn fs (parsers_of conv (load conv e) cn fs)
+  | V0 => v0_body cn fs (parsers_of conv (load conv kwonly e) cn fs)
+  | V1 => v1_body kwonly cn fs (parsers_of conv (load conv kwonly e) cn fs)
   end.
 Proof. destruct e; reflexivity. Qed.
 
@@ -517,27 +521,105 @@ Proof.
     now rewrite I, R, M.
 Qed.
 
-Theorem load_refines_spec e : forall c, wf_cls c = true ->
-  forall d, uniq c d -> forall n, erase_res (fst (load conv e c d n)) = spec conv e c d.
+(* the specification never yields a bare TypeError *)
+Lemma collect_err0 {K} (l : list (K * res pv)) er :
+  collect l = Err er -> exists k, In (k, Err er) l.
 Proof.
-  induction c as [cn fs IH] using cls_induct. intros Hwf d Hu n.
+  induction l as [|[k [v|e]] l IH]; cbn [collect]; intro H; [discriminate| |].
+  - destruct (collect l); [discriminate|]. injection H as ->. destruct IH as (k' & Hk); auto.
+    exists k'. now right.
+  - injection H as ->. exists k. now left.
+Qed.
+
+Lemma sparsers_In0 sp cn (fs : list fdecl) k s :
+  In (k, s) (sparsers_of conv sp cn fs) ->
+  exists f, In f fs /\ s = spec_kind conv sp cn k (fkind f).
+Proof.
+  induction fs as [|[nm d ini k0] r IH]; [intros []|]. rewrite sparsers_of_cons.
+  destruct ini; cbn [In].
+  - intros [H|H].
+    + injection H as <- <-. exists (FD nm d true k0). cbn. auto.
+    + destruct (IH H) as (f & Hf & R). exists f. split; [now right|exact R].
+  - intro H. destruct (IH H) as (f & Hf & R). exists f. split; [now right|exact R].
+Qed.
+
+Lemma visit_In0 e sp cn (fs : list fdecl) m k r :
+  In (k, r) (visit e (sparsers_of conv sp cn fs) m) ->
+  exists f v, In f fs /\ r = spec_kind conv sp cn k (fkind f) v.
+Proof.
+  intro H. destruct e; cbn [visit] in H; apply in_flat_map in H as ([k0 x0] & H0 & H); cbn [fst snd] in H.
+  - destruct (assoc k0 (sparsers_of conv sp cn fs)) as [s|] eqn:Es; [|destruct H].
+    destruct H as [H|[]]. injection H as <- <-. apply assoc_In in Es.
+    destruct (sparsers_In0 _ _ _ _ _ Es) as (f & Hf & ->). eauto.
+  - destruct (assoc k0 m) as [v|] eqn:Em; [|destruct H].
+    destruct H as [H|[]]. injection H as <- <-.
+    destruct (sparsers_In0 _ _ _ _ _ H0) as (f & Hf & ->). eauto.
+Qed.
+
+Lemma spec_no_bare e : forall c d x, spec conv e c d <> Err (EBareType x).
+Proof.
+  induction c as [cn fs IH] using cls_induct. intros d x H. cbn [spec] in H. unfold spec_body in H.
+  destruct d as [r|m|l]; try discriminate.
+  destruct (collect (visit e (sparsers_of conv (spec conv e) cn fs) m)) as [vals|er] eqn:Ec.
+  - destruct (omitted_required fs (keys m)); discriminate.
+  - injection H as ->. apply collect_err0 in Ec as (k & Hin).
+    apply visit_In0 in Hin as (f & v & Hf & Hr).
+    pose proof (fun c' Hc => IH f c' Hf Hc) as IH'. clear IH. rename IH' into IH. unfold child in IH.
+    destruct (fkind f) as [t|c|c]; cbn [kchild spec_kind] in *.
+    + unfold spec_leaf in Hr. destruct v; try discriminate. destruct (conv t r); discriminate.
+    + symmetry in Hr. now apply (IH c eq_refl) in Hr.
+    + unfold spec_list in Hr. destruct v as [r|m'|l]; try discriminate.
+      destruct (collect (map (fun y => (tt, spec conv e c y)) l)) as [vs|er1] eqn:El; [discriminate|].
+      injection Hr as <-. apply collect_err0 in El as (u & Hu). apply in_map_iff in Hu as (y & Ey & _).
+      injection Ey as _ Ey. now apply (IH c eq_refl) in Ey.
+Qed.
+
+Lemma spec_kind_no_bare e cn nm (k : kind ty cls) v x :
+  spec_kind conv (spec conv e) cn nm k v <> Err (EBareType x).
+Proof.
+  destruct k as [t|c|c]; cbn [spec_kind].
+  - unfold spec_leaf. destruct v; try discriminate. destruct (conv t r); discriminate.
+  - apply spec_no_bare.
+  - unfold spec_list. destruct v as [r|m'|l]; try discriminate.
+    destruct (collect (map (fun y => (tt, spec conv e c y)) l)) as [vs|er1] eqn:El; [discriminate|].
+    intro H. injection H as ->. apply collect_err0 in El as (u & Hu). apply in_map_iff in Hu as (y & Ey & _).
+    injection Ey as _ Ey. now apply spec_no_bare in Ey.
+Qed.
+
+Lemma kw_safe_unfold e cn (fs : list fdecl) :
+  kw_safe kwonly e (Cls cn fs) = true ->
+  (e = V1 -> kw_required kwonly cn fs = false) /\
+  forall f c', In f fs -> child f = Some c' -> kw_safe kwonly e c' = true.
+Proof.
+  destruct e; cbn [kw_safe].
+  - intros _. split; [discriminate|]. intros f c' _ _. now destruct c'.
+  - intro H. apply andb_true_iff in H as [H1 H2]. split; [intros _; now apply negb_true_iff|].
+    rewrite forallb_forall in H2. intros f c' Hf Hc. specialize (H2 f Hf). unfold child in Hc.
+    destruct (fkind f); cbn [kchild] in Hc; try discriminate; injection Hc as <-; exact H2.
+Qed.
+
+Theorem load_refines_spec e : forall c, wf_cls c = true -> kw_safe kwonly e c = true ->
+  forall d, uniq c d -> forall n, erase_res (fst (load conv kwonly e c d n)) = spec conv e c d.
+Proof.
+  induction c as [cn fs IH] using cls_induct. intros Hwf Hkw d Hu n.
+  destruct (kw_safe_unfold e cn fs Hkw) as [Hkr Hkc].
   cbn [wf_cls] in Hwf. apply andb_true_iff in Hwf as [Hnd Hch].
   apply nodup_str_NoDup in Hnd. rewrite forallb_forall in Hch.
   rewrite load_unfold. cbn [spec].
-  set (ps := parsers_of conv (load conv e) cn fs).
+  set (ps := parsers_of conv (load conv kwonly e) cn fs).
   set (ss := sparsers_of conv (spec conv e) cn fs).
   destruct d as [r|m|l]; [destruct e; reflexivity| |destruct e; reflexivity].
   inversion Hu as [? ? ? Hkm Hk| |]; subst.
   (* the per-field correspondence *)
   assert (KS : forall f v, In f fs -> finit f = true -> assoc (fname f) m = Some v ->
-            forall n, erase_res (fst (kind_parser conv (load conv e) cn (fname f) (fkind f) v n))
+            forall n, erase_res (fst (kind_parser conv (load conv kwonly e) cn (fname f) (fkind f) v n))
                       = spec_kind conv (spec conv e) cn (fname f) (fkind f) v).
   { intros f v Hf I Ev. apply kind_spec; [|now apply Hk].
-    intros c' Hc'. apply (IH f c' Hf Hc'). specialize (Hch f Hf).
+    intros c' Hc'. apply (IH f c' Hf Hc'); [|now apply (Hkc f c' Hf)]. specialize (Hch f Hf).
     unfold child in Hc'. destruct (fkind f); cbn [kchild] in Hc'; try discriminate;
       injection Hc' as <-; exact Hch. }
   assert (AL : forall k v, In (k, v) m -> aligned ps ss k v).
-  { intros k v Hin. destruct (tables_aligned (load conv e) (spec conv e) cn fs k)
+  { intros k v Hin. destruct (tables_aligned (load conv kwonly e) (spec conv e) cn fs k)
       as [H|(f & Hf & I & <- & E1 & E2)]; [left; exact H|].
     right. eexists _, _. split; [exact E1|]. split; [exact E2|].
     apply KS; auto. now apply In_assoc. }
@@ -571,19 +653,20 @@ Proof.
     cbn [v1_body spec_body].
     assert (HP : forall f v, In f fs -> finit f = true -> assoc (fname f) m = Some v ->
        exists p : parser, assoc (fname f) ps = Some p /\
+         (forall x, spec_kind conv (spec conv V1) cn (fname f) (fkind f) v <> Err (EBareType x)) /\
          forall n, erase_res (fst (p v n)) = spec_kind conv (spec conv V1) cn (fname f) (fkind f) v).
     { intros f v Hf I Ev.
-      destruct (tables_aligned (load conv V1) (spec conv V1) cn fs (fname f))
+      destruct (tables_aligned (load conv kwonly V1) (spec conv V1) cn fs (fname f))
         as [[_ H]|(g & Hg & Ig & Eg & E1 & _)].
       - exfalso. apply assoc_none in H. apply H. fold ss. unfold ss. rewrite sparsers_keys.
         apply mem_In. now apply init_name_mem.
       - assert (g = f) by (eapply names_inj; eauto). subst g.
-        eexists. split; [exact E1|]. now apply KS. }
+        eexists. split; [exact E1|]. split; [intro x; apply spec_kind_no_bare|]. now apply KS. }
     pose proof (@v1_loop_spec V1 cn fs ps m Hnd fs [] eq_refl HP [] n (fun _ H => H)) as L.
     cbn [filter app] in L. fold ss in L.
     destruct (collect (visit V1 ss m)) as [vals|er] eqn:Ec.
     + destruct L as (acc & L1 & L2).
-      destruct (v1_loop ps fs m [] [] n) as [rr n1]. cbn [fst] in L1. subst rr.
+      destruct (v1_loop cn ps fs m [] [] n) as [rr n1]. cbn [fst] in L1. subst rr.
       set (bound := filter (fun kv : pstr * pv => rq fs (fst kv)) acc).
       set (kw := filter (fun kv : pstr * pv => negb (rq fs (fst kv))) acc).
       assert (Kacc : keys vals = keys acc) by (rewrite <- L2; apply keys_map).
@@ -606,7 +689,7 @@ Proof.
         fold (has_key (fname f) acc). rewrite has_key_mem. now apply ST. }
       unfold v1_finish. rewrite all_bound_missing, VM.
       destruct (omitted_required fs (keys m)) as [|m0 ms] eqn:OM.
-      * unfold construct. pose proof (@missing_args_names fs (bound ++ kw) (keys m) HK) as MA.
+      * rewrite (Hkr eq_refl). unfold construct. pose proof (@missing_args_names fs (bound ++ kw) (keys m) HK) as MA.
         rewrite OM in MA. destruct (missing_args fs (bound ++ kw)); [|discriminate].
         rewrite (@init_body_ext fs (bound ++ kw) acc (assoc_partition (rq fs) acc)).
         pose proof (init_body_erase fs acc n1) as IB.
@@ -618,7 +701,7 @@ Proof.
         destruct (is_required (fdef f)) eqn:R; [|now rewrite andb_false_r].
         rewrite <- OM. rewrite (@omitted_mem fs (keys m) f Hnd Hf I R).
         rewrite (STAR vals eq_refl f Hf I). now destruct (mem_str (fname f) (keys m)).
-    + destruct (v1_loop ps fs m [] [] n) as [rr n1]. cbn [fst] in L. now subst rr.
+    + destruct (v1_loop cn ps fs m [] [] n) as [rr n1]. cbn [fst] in L. now subst rr.
 Qed.
 
 (* ---- complete document minus deletions ------------------------------------------- *)
@@ -997,10 +1080,11 @@ Proof.
 Qed.
 
 Theorem subset_top e cn (fs : list fdecl) m S n :
-  wf_cls (Cls cn fs) = true -> complete conv (Cls cn fs) (JDict m) ->
+  wf_cls (Cls cn fs) = true -> kw_safe kwonly e (Cls cn fs) = true ->
+  complete conv (Cls cn fs) (JDict m) ->
   match required_in fs S with
   | [] => exists attrs,
-      erase_res (fst (load conv e (Cls cn fs) (JDict (remove_keys S m)) n)) = Ok (PInst cn attrs) /\
+      erase_res (fst (load conv kwonly e (Cls cn fs) (JDict (remove_keys S m)) n)) = Ok (PInst cn attrs) /\
       forall f, In f fs ->
         (finit f = true -> mem_str (fname f) S = false ->
            exists v x, assoc (fname f) m = Some v /\
@@ -1009,13 +1093,13 @@ Theorem subset_top e cn (fs : list fdecl) m S n :
         (finit f = false \/ mem_str (fname f) S = true ->
            assoc (fname f) attrs = default_slot (fdef f))
   | ms => exists prov,
-      fst (load conv e (Cls cn fs) (JDict (remove_keys S m)) n) = Err (EMissingFields cn prov ms)
+      fst (load conv kwonly e (Cls cn fs) (JDict (remove_keys S m)) n) = Err (EMissingFields cn prov ms)
   end.
 Proof.
-  intros Hwf Hc. set (m' := remove_keys S m).
+  intros Hwf Hkw Hc. set (m' := remove_keys S m).
   assert (Hp : partial conv (Cls cn fs) (JDict m')).
   { eapply deleted_partial; [exact Hc|]. constructor. apply remove_keys_sub. }
-  pose proof (@load_refines_spec e _ Hwf _ (partial_uniq Hp) n) as R.
+  pose proof (@load_refines_spec e _ Hwf Hkw _ (partial_uniq Hp) n) as R.
   inversion Hc as [? ? ? Hn Hkeys Hk]; subst.
   pose proof (@wf_names cn fs Hwf) as Hnd.
   assert (Hn' : NoDup (keys m')) by (inversion Hp; assumption).
@@ -1054,7 +1138,7 @@ Proof.
       apply mem_false. rewrite (visited_iff e (spec conv e) cn fs m' Ec f Hf I).
       unfold m'. rewrite keys_remove_keys, mem_filter, HS. apply andb_false_r.
   - exists (spec_provided e fs (keys vals)).
-    destruct (fst (load conv e (Cls cn fs) (JDict m') n)); cbn [erase_res] in R; [discriminate|exact R].
+    destruct (fst (load conv kwonly e (Cls cn fs) (JDict m') n)); cbn [erase_res] in R; [discriminate|exact R].
 Qed.
 
 (* ---- identities of default_factory products ------------------------------------------ *)
@@ -1184,9 +1268,9 @@ Proof.
     rewrite E2. rewrite E1 in Hf. eapply fresh_replace; eauto. eapply Hp; eauto.
 Qed.
 
-Lemma v1_loop_fresh ps : (forall k p, assoc k ps = Some p -> pfresh p) ->
+Lemma v1_loop_fresh cn ps : (forall k p, assoc k ps = Some p -> pfresh p) ->
   forall (fs : list fdecl) o bound kw n0 n bound' kw' n', fresh n0 (lids bound ++ lids kw) n ->
-  v1_loop ps fs o bound kw n = (Ok (bound', kw'), n') -> fresh n0 (lids bound' ++ lids kw') n'.
+  v1_loop cn ps fs o bound kw n = (Ok (bound', kw'), n') -> fresh n0 (lids bound' ++ lids kw') n'.
 Proof.
   intro Hp. induction fs as [|f fs IH]; intros o bound kw n0 n bound' kw' n' Hf H; cbn [v1_loop] in H.
   - injection H as <- <- <-. exact Hf.
@@ -1289,11 +1373,11 @@ Proof.
   specialize (R i (@assoc_ids_incl kw _ _ _ Eg Hw)). lia.
 Qed.
 
-Theorem load_fresh e : forall c, wf_cls c = true -> pfresh (load conv e c).
+Theorem load_fresh e : forall c, wf_cls c = true -> pfresh (load conv kwonly e c).
 Proof.
   induction c as [cn fs IH] using cls_induct. intros Hwf d n v n' H.
   pose proof (@wf_names cn fs Hwf) as Hnd.
-  assert (HP : forall k p, assoc k (parsers_of conv (load conv e) cn fs) = Some p -> pfresh p).
+  assert (HP : forall k p, assoc k (parsers_of conv (load conv kwonly e) cn fs) = Some p -> pfresh p).
   { apply parsers_fresh. intros f c' Hf Hc. apply (IH f c' Hf Hc). eapply wf_child; eauto. }
   rewrite load_unfold in H. destruct e.
   - unfold v0_body in H. destruct d as [r|m|l]; try discriminate.
@@ -1302,16 +1386,17 @@ Proof.
     unfold v0_finish in H. destruct (construct cn fs kw n1) as [[i n2]|] eqn:Ec; [|discriminate].
     injection H as <- <-. eapply construct_fresh; eauto.
   - unfold v1_body in H. destruct d as [r|m|l]; try discriminate.
-    destruct (v1_loop _ fs m [] [] n) as [[[bound kw]|er] n1] eqn:El; [|discriminate].
-    pose proof (@v1_loop_fresh _ HP fs m [] [] n n bound kw n1 (fresh_nil n) El) as F.
+    destruct (v1_loop cn _ fs m [] [] n) as [[[bound kw]|er] n1] eqn:El; [|discriminate].
+    pose proof (@v1_loop_fresh cn _ HP fs m [] [] n n bound kw n1 (fresh_nil n) El) as F.
     unfold v1_finish in H. destruct (all_bound fs bound); [|discriminate].
+    destruct (kw_required kwonly cn fs); [discriminate|].
     destruct (construct cn fs (bound ++ kw) n1) as [[i n2]|] eqn:Ec; [|discriminate].
     injection H as <- <-. eapply construct_fresh; eauto. now rewrite lids_app.
 Qed.
 
 (* two successive loads: all identities pairwise distinct, within and across *)
 Theorem two_loads_fresh e c d1 d2 n v1 n1 v2 n2 : wf_cls c = true ->
-  load conv e c d1 n = (Ok v1, n1) -> load conv e c d2 n1 = (Ok v2, n2) ->
+  load conv kwonly e c d1 n = (Ok v1, n1) -> load conv kwonly e c d2 n1 = (Ok v2, n2) ->
   NoDup (ids v1 ++ ids v2).
 Proof.
   intros Hwf H1 H2. pose proof (@load_fresh e c Hwf _ _ _ _ H1) as F1.
